@@ -42,7 +42,10 @@ import (
 const (
 	siteStart   = "c25.cwq.processJob.start"
 	siteWritten = "c25.cwq.processJob.written"
-	bufSize     = chunks.MinWriteBufferSize // 64 KiB, the smallest allowed
+	// inside flushBuffer: just before chkWriter.Flush(), and between Flush() and chunkBuffer.clear()
+	siteBeforeFlush = "c25.flushBuffer.beforeFlush"
+	siteFlushed     = "c03.headchunks.flushBuffer.flushed"
+	bufSize         = chunks.MinWriteBufferSize // 64 KiB, the smallest allowed
 )
 
 // ---------------------------------------------------------------- worker gate
@@ -53,7 +56,7 @@ var (
 )
 
 func hook(site string, _ int) {
-	if site != siteStart && site != siteWritten {
+	if site != siteStart && site != siteWritten && site != siteBeforeFlush && site != siteFlushed {
 		return
 	}
 	if !gated.Load() {
@@ -570,7 +573,30 @@ func (s *session) proc() {
 		return
 	}
 	release <- struct{}{}
-	waitArrive(siteWritten)
+	// the worker stops at both pause points of every flushBuffer on its way (cut's finalizeCurFile,
+	// buffer full, chunk >= buffer); at each of them every ref handed out so far is read back
+	for at := ""; at != siteWritten; {
+		select {
+		case at = <-arrived:
+		case <-time.After(120 * time.Second):
+			panic("h_c25: worker did not reach " + siteWritten)
+		}
+		switch at {
+		case siteBeforeFlush:
+			s.step("SSite false", "ONone", "site-before-flush")
+			s.e.meta.Hit("site-before-flush")
+			s.readAll("before-flush")
+			release <- struct{}{}
+		case siteFlushed:
+			s.step("SSite true", "ONone", "site-flushed")
+			s.e.meta.Hit("site-flushed")
+			s.readAll("between-flush-and-clear")
+			release <- struct{}{}
+		case siteWritten:
+		default:
+			panic("h_c25: worker arrived at " + at)
+		}
+	}
 	s.wk = 2
 	seq, off := s.m.VerifCurFile()
 	if !s.cur.done {
@@ -580,8 +606,19 @@ func (s *session) proc() {
 		s.cbErr = true
 		s.e.meta.Hit("callback-error")
 	}
-	s.step("SProc", fmt.Sprintf("OProc %s %d %d", gallina.Bool(s.cur.ok), seq, off), "proc")
+	s.step("SProc", fmt.Sprintf("OProc %s %d %d 0", gallina.Bool(s.cur.ok), seq, off), "proc")
 	s.e.meta.Hit("op-proc")
+}
+
+// readAll reads back every chunk ref handed out so far (this session's, and those found on disk
+// at open), whatever its state: queued, at the worker, written, flushed.
+func (s *session) readAll(when string) {
+	for _, w := range append(append([]*written{}, s.disk...), s.all...) {
+		if w.dead {
+			continue
+		}
+		s.read(w, when)
+	}
 }
 
 func (s *session) read(w *written, when string) {
@@ -1036,6 +1073,47 @@ func (e *env) corpus() {
 		s.close("corpus", "fresh-write-truncate-cut-write", 0, 10)
 		e.restartCase(dir, s.disk, -1, 0, false, 0, 10)
 		e.torn(dir, s.disk, gen.Fork(0, 10), 0, 10)
+		os.RemoveAll(dir)
+	}
+	// 3. every kind of flush with acknowledged chunks that live only in chunkBuffer + writer:
+	//    cut after CutNewFile (finalizeCurFile), cut after Truncate, chunk >= buffer (flush after
+	//    write), buffer full (flush before write); all refs are read at both pause points of each.
+	for variant, pre := range []int64{0, 100} {
+		e.aftermath = false
+		dir, _ := os.MkdirTemp(e.f.Out, "cdm")
+		chunks.HeadChunkFilePreallocationSize = pre
+		s := &session{e: e}
+		s.open(dir, 4, nil)
+		bigRec := func(series uint64, n int) *rec {
+			seed := uint64(1000 + n)
+			return &rec{series: series, mint: 1, maxt: 2, enc: 1, data: lcg(seed, n), expr: fmt.Sprintf("(gen_data %d %d)", seed, n)}
+		}
+		s.write(mk(1, 0, 2, 9, 9, 9))
+		s.proc()
+		s.doneStep()
+		s.write(mk(2, 0, 1, 7, 7))
+		s.proc()
+		s.doneStep()
+		s.cut()
+		s.write(mk(3, 0, 3, 1, 2, 3, 4)) // cut: finalizeCurFile flushes file 1 while chunks 1, 2 are only buffered
+		s.proc()
+		s.doneStep()
+		s.trunc(1) // nothing to remove, but requests a cut
+		s.write(mk(4, 0, 1, 5, 5))
+		s.write(mk(5, 0, 1, 6, 6))
+		s.proc()
+		s.doneStep()
+		s.proc()
+		s.doneStep()
+		s.write(bigRec(6, bufSize-34)) // chunk >= buffer: flush after the write
+		s.proc()
+		s.doneStep()
+		for i := 0; i < 4; i++ { // 4 x 20 KiB: the third or fourth finds the writer full: flush before the write
+			s.write(bigRec(uint64(7+i), 20000+i))
+			s.proc()
+			s.doneStep()
+		}
+		s.close("corpus", fmt.Sprintf("flush-window-prealloc%d", pre), 0, 20+variant)
 		os.RemoveAll(dir)
 	}
 }
